@@ -67,6 +67,10 @@ pub struct Opts {
     pub debug: bool,
     /// run Debug of the whole boot information (expensive under Miri)
     pub debug_whole: bool,
+    /// C15 ("the typed view's fields alias the tag's bytes"): handed-out views must
+    /// end at the tag's declared size; elsewhere the padding up to the next
+    /// multiple of 8 (which is part of the region) is tolerated
+    pub strict_extent: bool,
 }
 
 /// extent of the tag a view was derived from
@@ -104,7 +108,7 @@ impl<'a> Ex<'a> {
         }
         if let Some(t) = tag {
             let lo = t.off as i64;
-            let hi = (t.off + round8(t.size)) as i64;
+            let hi = (t.off + if self.opts.strict_extent { t.size } else { round8(t.size) }) as i64;
             if !(off >= lo && off + len as i64 <= hi) {
                 ctx.violation(
                     &format!("view-outside-its-tag:{}", what),
